@@ -61,3 +61,19 @@ Definition prop_times (start dt : float) (step : Z) : float * float :=
   let t := start + of_Z step * dt in (t + dt / 4, t + dt * 3 / 4).
 Definition all_prop_times (start dt : float) (n : nat) : list float :=
   flat_map (fun k => let '(a, b) := prop_times start dt (Z.of_nat k) in [a; b]) (seq 0 n).
+
+(* ---- a driver object that records one label per reached step, under restarts (PtTebd: initialize(), compute()) --------
+   The recorder holds step indices k (the label is tebd_time of start_step + k).  RInit = initialize(): the step counter
+   goes back to the first step and the recorder of the object holds the label of the first step only -- with
+   keep = true the recorders of the earlier run are kept and the new labels are added to them (the variant that is
+   refuted).  RStep = one propagation step inside compute().  Within one run labels arrive in increasing order, so
+   appending is Dynamics.add (theorem dynamics_sorted covers arbitrary insertion orders). *)
+Inductive rop := RInit | RStep.
+Record rstate := { r_step : nat; r_rec : list nat }.
+Definition r_apply (keep : bool) (s : rstate) (o : rop) : rstate :=
+  match o with
+  | RInit => {| r_step := 0; r_rec := (if keep then r_rec s else []) ++ [0%nat] |}
+  | RStep => {| r_step := S (r_step s); r_rec := r_rec s ++ [S (r_step s)] |}
+  end.
+Definition r_run (keep : bool) (ops : list rop) : rstate := fold_left (r_apply keep) ops {| r_step := 0; r_rec := [] |}.
+Definition rec_labels (keep : bool) (ops : list rop) : list nat := r_rec (r_run keep ops).
